@@ -75,8 +75,14 @@ func (i MessageIntegrity) AddTo(msg *Message) error {
 	length := msg.Length
 	// Adjusting m.Length to contain MESSAGE-INTEGRITY TLV.
 	msg.Length += messageIntegritySize + attributeHeaderSize
-	msg.WriteLength()                                // writing length to m.Raw
-	v := newHMAC(i, msg.Raw, msg.Raw[len(msg.Raw):]) // calculating HMAC for adjusted m.Raw
+	msg.WriteLength() // writing length to m.Raw
+	// Only the bytes covered by the message length are signed: a message decoded
+	// from a longer buffer still carries the trailing bytes in Raw until Add drops them.
+	covered := msg.Raw
+	if end := messageHeaderSize + int(length); end < len(covered) {
+		covered = covered[:end]
+	}
+	v := newHMAC(i, covered, msg.Raw[len(msg.Raw):]) // calculating HMAC for adjusted m.Raw
 	msg.Length = length                              // changing m.Length back
 
 	// Copy hmac value to temporary variable to protect it from resetting
